@@ -33,6 +33,10 @@ class Undefined(EvalError):
     """the expression has no defined value at this valuation (zero divisor, overflow, domain error)"""
 
 
+class Overflow(Undefined):
+    """an intermediate integer exceeds 32 bits in *this* association order (another order may be fine)"""
+
+
 class Fragile(EvalError):
     """value is defined but ill-conditioned (comparison / truncation within the error bound)"""
 
@@ -692,7 +696,7 @@ def _chk_real(v):
 
 def _chk_int(v):
     if abs(v) > INTMAX:
-        raise Undefined('integer overflow')
+        raise Overflow('integer overflow')
     return v
 
 
@@ -814,7 +818,7 @@ class Evaluator:
                     raise Undefined('0 ** negative')
                 return Val('i4', 1 if b == 1 else ((1 if e % 2 == 0 else -1) if b == -1 else 0))
             if abs(b) > 1 and e > 62:
-                raise Undefined('integer overflow')
+                raise Overflow('integer overflow')
             return Val('i4', _chk_int(b ** e))
         if y.ty == 'i4':
             x = _toreal(x, ty)
